@@ -21,7 +21,7 @@ def _tol_blob(sigmas, passes=1):
 
 BLOB_SHELL = 0.015  # placeblob: voxels whose analytic value is within this of the 0.1 threshold may fall either way (spline error)
 RULE = ("seven case kinds from one PRNG: rot24 = one of the 64 quarter-turn zxz triples (all 24 cube rotations) on an integer-valued box "
-        "5..9 per axis (odd, even, non-cubic) and non-cubic boxes up to 16 whose first/last floor-halves differ, every voxel >=1 away from the "
+        "(half of the boxes in sevenths: not representable in binary) 5..9 per axis (odd, even, non-cubic) and non-cubic boxes up to 16 whose first/last floor-halves differ, every voxel >=1 away from the "
         "faces compared; the rotation-object path with transpose_rotation=True (70 %) or omitted (30 %, library default); in 60 % one more call "
         "with a non-default option or argument form (radians, intrinsic 'ZXZ', spline_order=1, tuple / ndarray angles, a file name); rotblob = "
         "random zxz angles on 1-3 isotropic Gaussians (sigma 1.75-2.75, 3.3 sigma inside the box) in a 18-24 box, compared with the analytic "
@@ -34,7 +34,10 @@ RULE = ("seven case kinds from one PRNG: rot24 = one of the 64 quarter-turn zxz 
         "is judged on the edited inputs; place = place_object with 1..20 poses, templates 3..9 per axis (odd, even, mixed parity, non-cubic), one "
         "template or a list of different templates with repeated bit-identical angles, right-angle orientations of either sign and beyond one turn "
         "(fully modelled, from the table rows through get_rotations / get_coordinates) or 20 % arbitrary orientations with two decimals (mask "
-        "taken from the real rotate: consistency only), positions x+shift on the 1/4 grid or with two decimals in and around the container, "
+        "taken from the real rotate: consistency only; angles with three decimals or in sevenths of a degree), complete positions on the 1/4 grid "
+        "(boundaries included) or on a grid binary floats cannot hold (1/100, 1/1000, 1/6, 1/14; >= 1/20 from the voxel boundaries) in and around "
+        "the container, split at random between x/y/z and the shift columns (x fractional in half of the particles), subtomo_id / tomo_id "
+        "unsorted with ids restarting per tomogram, "
         "colouring field object_id (keyword omitted in 2/3 of these: default) / score / geom1 / class with values <= 0 too, default / offset / "
         "shuffled / filtered / duplicated DataFrame index, float or int64 columns, volume (array or file name) or volume_shape (tuple / list); "
         "30 % with Motl.shift_positions(v) (in place, default, or inplace=False) before placing; 40 % with a second call on the same template "
@@ -42,7 +45,8 @@ RULE = ("seven case kinds from one PRNG: rot24 = one of the 64 quarter-turn zxz 
         "after every call get_angles / get_rotations / get_coordinates are compared with the table; placeblob = a Gaussian-blob template at "
         "offset v, one particle with arbitrary orientation (two decimals or 1/4 degree): stamped voxels vs the analytic ball at (voxel of pos-1) + "
         "R*v (exact outside a thin threshold shell) and centre of mass within 0.1 voxel, orientation matrix to 1e-12; symexact = "
-        "symmetrize_volume n in {1,2,4} on integer boxes (exact), symmetry given as int / 'C<n>' / float; symblob = n in 2..12 on Gaussian blobs "
+        "symmetrize_volume n in {1,2,4} on integer or seventh-valued boxes (exact), symmetry given as int / 'C<n>' / 'c<n>' / float / np.int64 / "
+        "np.int32 / np.float32 / np.float64; symblob = n in 2..12 on Gaussian blobs "
         "vs the analytic mean of the rotated Gaussians. `at the particle's position` is judged by the statement (template centre floor(s/2) on "
         "the voxel of pos-1, floor or round-half-up for fractional positions), not by the code's window formula (defect D33: odd template axes "
         "with frac(pos) < 1/2 sat one voxel low). Every "
@@ -53,6 +57,8 @@ ASSUMPTIONS = [
     "sources outside [0,N-1]; probed each run (identity and quarter-turn rotations); sources exactly on a face are excluded (rounding)",
     "scipy Rotation.from_euler('zxz',[phi,theta,psi],degrees=True).as_matrix() = Rz(psi)Rx(theta)Rz(phi) = Lean zxz; probed each run on the 64 quarter-turn triples and on random angles",
     "numpy float arithmetic on integer-valued / dyadic voxels is exact (sums, mean = correctly rounded quotient)",
+    "place_object containers are floating-point arrays (volume_shape, or a float volume): an integer-typed container given as `volume` takes the "
+    "colours through numpy's casting assignment (a score of 0.7 becomes 0), which is the caller's choice of dtype, not a clause of the statement: outside",
     "spline interpolation accuracy on band-limited blobs is scipy's: the smooth-map clauses are validated against analytic Gaussians with the tolerance "
     "0.05/sigma^4 + 0.0045 of the peak per resampling (derivation at _tol_blob; largest seen: 0.36 % one pass, 0.70 % rotate-then-invert), not proved",
 ]
@@ -531,7 +537,7 @@ def _blob(N, blobs, centres=None):
 
 
 # ------------------------------------------------------------------ generators
-_DTYPES = ["float64", "float64", "float64", "int16", "int32", "uint8", "int16"]
+_DTYPES = ["float64", "float64", "float64", "int16", "int32", "uint8", "int16", "float32"]
 
 
 def _intvol(rng, shape, zero_faces=False, sparse=False, lo=-9):
@@ -561,6 +567,9 @@ def gen_rot24(rng, q=None, shape=None):
     q = q or [rng.randrange(4) for _ in range(3)]
     # G1: `transpose_rotation` is passed explicitly (True) in ~70 %, omitted (library default False) in ~30 %
     return dict(kind="rot24", shape=shape, data=_intvol(rng, shape, sparse=rng.random() < 0.3), q=list(q), plain=rng.random() < 0.3,
+                # round 7: half of the boxes hold sevenths (not representable in binary, let alone in single precision): a detour of the
+                # map through float32 shows in the exact permutation clause; the permutation itself stays exact
+                vden=rng.choice([1, 7]),
                 # item 6: one more call with a non-default option / argument form (None in half of the cases)
                 alt=rng.choice([None, None, None, None, "radians", "ZXZ", "order1", "tuple", "ndarray", "path"]))
 
@@ -619,7 +628,7 @@ def gen_extract(rng):
                 enforce=rng.random() < 0.25,            # explicit enforce_shape=True (default False is what `out` exercises)
                 crop_default=rng.random() < 0.3,         # G1: crop_coord omitted -> box centre
                 # item 6: non-integer voxels (eighths: sums and the mean stay exact in binary floating point)
-                vden=8 if dtype == "float64" and rng.random() < 0.4 else 1,
+                vden=8 if dtype in ("float64", "float32") and rng.random() < 0.4 else 1,
                 # H3: array-like arguments as a user passes them
                 coord_as=rng.choice(["ndarray", "ndarray", "tuple", "list"]), sub_as=rng.choice(["list", "list", "tuple", "ndarray"]),
                 # G2 / work list 1: between the first and the second extract the SAME volume array is legitimately edited in place
@@ -670,7 +679,10 @@ def gen_place(rng, tier="quick"):
     feature = rng.choice(["object_id", "object_id", "object_id", "score", "geom1", "class"])
     general = rng.random() < 0.2
     tlist = (not general) and rng.random() < 0.3           # the list entry point: one template per particle
-    pden = 4 if rng.random() < 0.7 else 100                # H3: shifts on the 1/4 grid, or decimal shifts with two places
+    # the grid of x and shift: quarters (dyadic: every sum is exact, positions may sit ON the voxel boundaries 0 and 1/2), or a grid a
+    # binary float cannot hold - hundredths, thousandths, sixths (thirds), fourteenths (sevenths): a table whose positions, shifts or
+    # angles are rounded to two decimals on the way in differs (round 7); there the complete position keeps >= 1/20 from 0 and 1/2
+    pden = rng.choice([4, 4, 4, 100, 1000, 6, 14])
     # item 3: Motl.shift_positions (an offset in the particle's own frame) before placing; positions then carry the round-off
     # of the rotated offset, so they stay away from the voxel boundaries 0 and 1/2
     shiftpos = None
@@ -683,7 +695,7 @@ def gen_place(rng, tier="quick"):
     parts = []
     for i in range(n):
         pos = [rng.randint(-2, c + 3) for c in C]
-        if shiftpos is not None:
+        if shiftpos is not None or pden != 4:
             sh = [_off_boundary(rng, pden) for _ in range(3)]
         else:
             sh = [rng.randint(-2 * pden, 2 * pden) if rng.random() < 0.6 else 0 for _ in range(3)]
@@ -692,8 +704,15 @@ def gen_place(rng, tier="quick"):
         else:
             col = [rng.randint(-3, 30), 1]                # item 6: colours <= 0 too
         p = dict(pos=pos, shift4=sh, col=col)
-        if general:                                        # H3: decimal angles (two places), off the dyadic grid
-            p["angles"] = [rng.randint(-18000, 18000) / 100.0, rng.randint(0, 18000) / 100.0, rng.randint(-18000, 18000) / 100.0]
+        # round 7: the complete position pos + shift4/pden is split at random between the x / y / z columns and the shift columns
+        # (x = pos + xnum/pden, shift = (shift4 - xnum)/pden): x, y, z are fractional in half of the particles
+        if rng.random() < 0.5:
+            p["xnum"] = [rng.randint(-pden, pden) for _ in range(3)]
+        if general:                                        # angles with three decimals or in sevenths of a degree
+            if rng.random() < 0.5:
+                p["angles"] = [rng.randint(-180000, 180000) / 1000.0, rng.randint(0, 180000) / 1000.0, rng.randint(-180000, 180000) / 1000.0]
+            else:
+                p["angles"] = [rng.randint(-1260, 1260) / 7.0, rng.randint(0, 1260) / 7.0, rng.randint(-1260, 1260) / 7.0]
         else:
             p["q"] = [rng.randint(-4, 7) for _ in range(3)]         # right angles of any sign, beyond one turn
             if tlist:
@@ -701,6 +720,13 @@ def gen_place(rng, tier="quick"):
                 if i > 0 and rng.random() < 0.5:       # bit-identical angles for particles with different templates
                     p["q"] = list(rng.choice(parts)["q"])
         parts.append(p)
+    # round 7: subtomo_id / tomo_id as a merged, filtered list has them - not sorted, ids restarting per tomogram (a constructor that
+    # sorted or de-duplicated rows would change the order of stamps and accessors)
+    ids = list(range(1, n + 1))
+    rng.shuffle(ids)
+    for p, sid in zip(parts, ids):
+        p["tid"] = rng.choice([1, 2, 3, 7])
+        p["sid"] = sid if rng.random() < 0.8 else rng.randint(1, n)
     cinit = None
     if rng.random() < 0.4:
         cinit = [[[rng.choice([0, 0, 0, 77, -5]) for _ in range(C[2])] for _ in range(C[1])] for _ in range(C[0])]
@@ -740,13 +766,18 @@ def gen_placeblob(rng):
             break
     C = [rng.randint(t + 6, t + 14) for t in T]
     pos4 = [rng.randint(4 * (t // 2 + 2), 4 * (c - t // 2 - 1)) for t, c in zip(T, C)]
-    if rng.random() < 0.5:      # H3: decimal angles with two places (off the dyadic grid), else the 1/4-degree grid
-        ang = [rng.randint(-18000, 18000) / 100.0, rng.randint(0, 18000) / 100.0, rng.randint(-18000, 18000) / 100.0]
+    if rng.random() < 0.5:      # decimal angles with three places (off the dyadic grid, not on the 0.01 grid), else the 1/4-degree grid
+        ang = [rng.randint(-180000, 180000) / 1000.0, rng.randint(0, 180000) / 1000.0, rng.randint(-180000, 180000) / 1000.0]
     else:
         ang = [rng.randint(-720, 720) / 4.0, rng.randint(0, 720) / 4.0, rng.randint(-720, 720) / 4.0]
     if rng.random() < 0.1:
         ang = [90.0 * rng.randrange(4) for _ in range(3)]
     return dict(kind="placeblob", tshape=T, sigma=sig, v=v, cshape=C, pos4=pos4, angles=ang, col=rng.randint(1, 30))
+
+
+# the number of folds as a user may hold it: python int / float, 'C<n>' / 'c<n>', and the numpy scalars that indexing an integer array,
+# np.max or a float32 table give (round 7: the numpy scalars were refused with ValueError - defect D35, repaired)
+_SYM_FORMS = ["int", "str", "float", "lower", "npint64", "npint32", "npfloat32", "npfloat64"]
 
 
 def gen_symexact(rng, n=None):
@@ -755,7 +786,8 @@ def gen_symexact(rng, n=None):
     if rng.random() < 0.5:
         shape[1] = shape[0]
     zf = rng.random() < 0.5
-    return dict(kind="symexact", n=n, shape=shape, data=_intvol(rng, shape, zero_faces=zf), zero_faces=zf, form=rng.choice(["int", "str", "float"]))
+    return dict(kind="symexact", n=n, shape=shape, data=_intvol(rng, shape, zero_faces=zf), zero_faces=zf, form=rng.choice(_SYM_FORMS),
+                vden=rng.choice([1, 7]))
 
 
 def _blobs_z(rng, N):
@@ -776,7 +808,7 @@ def _blobs_z(rng, N):
 
 def gen_symblob(rng, n=None):
     N = rng.randint(24, 30)
-    return dict(kind="symblob", n=n or rng.randint(2, 12), N=N, blobs=_blobs_z(rng, N), form=rng.choice(["int", "str", "float"]))
+    return dict(kind="symblob", n=n or rng.randint(2, 12), N=N, blobs=_blobs_z(rng, N), form=rng.choice(_SYM_FORMS))
 
 
 def generate(rng, tier, n):
@@ -841,8 +873,10 @@ def shrink(case):
         if case["index"] != "default":
             yield dict(case, index="default")
         for i, p in enumerate(parts):
-            if any(p["shift4"]):
-                yield dict(case, parts=parts[:i] + [dict(p, shift4=[0, 0, 0])] + parts[i + 1:])
+            if any(p.get("xnum", [0, 0, 0])):      # whole-number x, y, z (the complete position stays)
+                yield dict(case, parts=parts[:i] + [{a: b for a, b in p.items() if a != "xnum"}] + parts[i + 1:])
+            if any(p["shift4"]) and case.get("shiftpos") is None:
+                yield dict(case, parts=parts[:i] + [dict({a: b for a, b in p.items() if a != "xnum"}, shift4=[0, 0, 0])] + parts[i + 1:])
             if "q" in p and any(p["q"]) and not case.get("tlist"):
                 yield dict(case, parts=parts[:i] + [dict(p, q=[0, 0, 0])] + parts[i + 1:])
     elif k in ("rot24", "symexact", "extract"):
@@ -885,12 +919,13 @@ def _motl(case):
     den = case.get("pden", 4)
     df = pd.DataFrame({c: np.zeros(n) for c in COLUMNS})
     for i, p in enumerate(parts):
-        df.loc[i, ["x", "y", "z"]] = [float(v) for v in p["pos"]]
-        df.loc[i, ["shift_x", "shift_y", "shift_z"]] = [v / den for v in p["shift4"]]
+        xn = p.get("xnum", [0, 0, 0])
+        df.loc[i, ["x", "y", "z"]] = [(den * v + a) / den for v, a in zip(p["pos"], xn)]
+        df.loc[i, ["shift_x", "shift_y", "shift_z"]] = [(v - a) / den for v, a in zip(p["shift4"], xn)]
         ang = p["angles"] if "angles" in p else [90.0 * q for q in p["q"]]
         df.loc[i, ["phi", "theta", "psi"]] = ang
-        df.loc[i, "subtomo_id"] = i + 1
-        df.loc[i, "tomo_id"] = 1
+        df.loc[i, "subtomo_id"] = p.get("sid", i + 1)
+        df.loc[i, "tomo_id"] = p.get("tid", 1)
         df.loc[i, case["feature"]] = p["col"][0] / p["col"][1]
     if case.get("intcols"):
         for c in COLUMNS:
@@ -970,7 +1005,8 @@ def _zxz(ang):
 def _sym_arg(case):
     """the symmetry as the docstring allows it: 'C<n>', an int or a float"""
     n = case["n"]
-    return {"int": n, "float": float(n)}.get(case["form"], f"C{n}")
+    return {"int": n, "float": float(n), "lower": f"c{n}", "npint64": np.int64(n), "npint32": np.int32(n), "npfloat32": np.float32(n),
+            "npfloat64": np.float64(n)}.get(case["form"], f"C{n}")
 
 
 def run_impl(case):
@@ -978,7 +1014,7 @@ def run_impl(case):
     from scipy.spatial.transform import Rotation as srot
     k = case["kind"]
     if k == "rot24":
-        vol = np.array(case["data"], dtype=float)
+        vol = np.array(case["data"], dtype=float) / case.get("vden", 1)
         vol0 = vol.copy()
         ang = [90.0 * q for q in case["q"]]
         out = cryomap.rotate(vol, rotation_angles=ang)
@@ -1181,7 +1217,7 @@ def run_impl(case):
         other = int(((out != 0) & (out != float(case["col"]))).sum())
         return dict(dtype=str(out.dtype), shape=list(out.shape), on=on.tolist(), other=other, inputs_unchanged=_same(tmpl, tmpl0), R=Racc)
     if k == "symexact":
-        vol = np.array(case["data"], dtype=float)
+        vol = np.array(case["data"], dtype=float) / case.get("vden", 1)
         vol0 = vol.copy()
         n = case["n"]
         out = cryomap.symmetrize_volume(vol, _sym_arg(case))
@@ -1212,13 +1248,13 @@ def _rows(stage, case, before_shift=False):
     for i, (p, p0) in enumerate(zip(stage["parts"], case["parts"])):
         r = {c: [0, 1] for c in COLUMNS}
         num = [den * x + s for x, s in zip(p0["pos"], p0["shift4"])] if before_shift else p["num"]
-        for c, x0, nn in zip("xyz", p0["pos"], num):
-            # x keeps the integer part the table holds, the shift column the rest (only their sum enters the placement)
-            r[c] = [x0, 1]
-            r["shift_" + c] = [nn - den * x0, den]
+        for c, x0, xa, nn in zip("xyz", p0["pos"], p0.get("xnum", [0, 0, 0]), num):
+            # x as the table was built (whole or fractional), the shift column the rest (only their sum enters the placement)
+            r[c] = [den * x0 + xa, den]
+            r["shift_" + c] = [nn - den * x0 - xa, den]
         for c, qq in zip(("phi", "theta", "psi"), p["q"]):
             r[c] = [90 * qq, 1]
-        r["subtomo_id"], r["tomo_id"] = [i + 1, 1], [1, 1]
+        r["subtomo_id"], r["tomo_id"] = [p0.get("sid", i + 1), 1], [p0.get("tid", 1), 1]
         r[case["feature"]] = list(p["col"])
         rows.append([r[c] for c in COLUMNS])
     return rows
@@ -1229,8 +1265,8 @@ def _rows_float(stage, case):
     rows = []
     for p, p0 in zip(stage["parts"], case["parts"]):
         r = {c: 0.0 for c in COLUMNS}
-        for c, x0, nn in zip("xyz", p0["pos"], p["num"]):
-            r[c], r["shift_" + c] = float(x0), (nn - den * x0) / den
+        for c, x0, xa, nn in zip("xyz", p0["pos"], p0.get("xnum", [0, 0, 0]), p["num"]):
+            r[c], r["shift_" + c] = (den * x0 + xa) / den, (nn - den * x0 - xa) / den
         for c, a in zip(("phi", "theta", "psi"), _stage_angles(p)):
             r[c] = a
         rows.append([f2b(r[c]) for c in COLUMNS])
@@ -1354,11 +1390,14 @@ def _odd_low_axes(num, den, s):
 
 
 def _paint(case, stage, conv):
-    """independent evaluation of the placement clause (right-angle poses, any template size, one template or a list):
-    painter's algorithm"""
+    """independent evaluation of the placement clause (right-angle poses, any template size, one template or a list).  Returns the
+    painting in table order (a later row over an earlier one) and the mask of voxels covered by stamps of DIFFERENT colours: the
+    statement says what a stamp is and where it goes, not which particle wins where two stamps overlap."""
     C = case["cshape"]
     den = case.get("pden", 4)
     out = np.zeros(C) if case.get("cinit") is None else np.array(case["cinit"], dtype=float)
+    painted = np.zeros(C, bool)
+    contested = np.zeros(C, bool)
     for p in stage["parts"]:
         t = np.array(p["tdata"] if case.get("tlist") else stage["tdata"]) / case["tden"]
         s = t.shape
@@ -1372,19 +1411,32 @@ def _paint(case, stage, conv):
                 w = R @ v
                 tt = [c[i] + int(w[i]) for i in range(3)]
                 if all(0 <= tt[i] < s[i] for i in range(3)):
-                    pp = [start[i] + tt[i] for i in range(3)]
+                    pp = tuple(start[i] + tt[i] for i in range(3))
                     if all(0 <= pp[i] < C[i] for i in range(3)):
-                        out[tuple(pp)] = col
-    return out
+                        if painted[pp] and out[pp] != col:
+                            contested[pp] = True
+                        out[pp] = col
+                        painted[pp] = True
+    return out, contested
 
 
 def _judge_stamps(out, case, stage, got, suffix):
-    """the placement clause for one call"""
-    same = lambda e: float(np.abs(got - e).max()) <= TOL
-    exp_f = _paint(case, stage, "floor")
-    if same(exp_f) or same(_paint(case, stage, "round")):
+    """the placement clause for one call: spec on every voxel whose value does not depend on the order of overlapping stamps; the
+    order itself (the later row wins, what the painter's-loop theorem says about the model) is documented behaviour: corr"""
+    verdicts = []
+    for conv in ("floor", "round"):
+        exp, contested = _paint(case, stage, conv)
+        d_free, at_free = _worst(~contested, got, exp)
+        d_all, at_all = _worst(np.ones(got.shape, bool), got, exp)
+        if d_all <= TOL:
+            return
+        verdicts.append((d_free, at_free, d_all, at_all, exp))
+    if any(v[0] <= TOL for v in verdicts):      # only contested voxels differ
+        d_free, at_free, d_all, at, exp = next(v for v in verdicts if v[0] <= TOL)
+        out.append(_F("corr", "place-overlap-order" + suffix, f"voxel {at}, covered by stamps of different colours, has {got[tuple(at)]!r}; in table order the later "
+                      f"row wins: {exp[tuple(at)]!r} (every uncontested voxel agrees)"))
         return
-    d, at = _worst(np.ones(got.shape, bool), got, exp_f)
+    d_free, at, d_all, at_all, exp_f = verdicts[0]
     den = case.get("pden", 4)
     s = np.array(stage["tdata"]).shape
     odd = [i for i, p in enumerate(stage["parts"]) if _odd_low_axes(p["num"], den, s)]
@@ -1468,7 +1520,7 @@ def judge(case, obs, resps):
         out.append(_F("corr", "caller-input-modified", f"{k}: an array / table / list passed as argument was edited in place by the call"))
     if k == "rot24":
         shape = case["shape"]
-        vol = np.array(case["data"], dtype=float)
+        vol = np.array(case["data"], dtype=float) / case.get("vden", 1)
         R = cube(*case["q"])
         if resps[0]["R"] != R.flatten().tolist() or not resps[0]["in24"]:
             out.append(_F("corr", "cube-matrix", f"Lean cubeZxz{case['q']} = {resps[0]['R']} but Rz(psi)Rx(theta)Rz(phi) = {R.flatten().tolist()}"))
@@ -1499,7 +1551,7 @@ def judge(case, obs, resps):
                 mp = o_int & (_interior(srcp, shape) | _outside(srcp, shape))
                 expp = np.where(_interior(srcp, shape), _take(vol, srcp, shape), 0.0)
                 d5, at5 = _worst(mp, g3, expp)
-                d6, at6 = _worst(mp, g3, np.array(resps[0]["plain"], dtype=float))
+                d6, at6 = _worst(mp, g3, np.array(resps[0]["plain"], dtype=float) / case.get("vden", 1))
                 if d5 > TOL or d6 > TOL:
                     out.append(_F("corr", "rotate-default-transpose", f"rotate(rotation=R) with the default transpose_rotation is not the map rotated by R^-1: "
                                   f"voxel {at5 if d5 > TOL else at6} off by {max(d5, d6)}"))
@@ -1516,7 +1568,7 @@ def judge(case, obs, resps):
             d3, at3 = _worst(m_back, gb, vol)
             if d3 > TOL:
                 out.append(_F("spec", "rotate-inverse-restores", f"rotating by the inverse does not restore voxel {at3}: off by {d3}"))
-        model = np.array(resps[0]["data"], dtype=float)
+        model = np.array(resps[0]["data"], dtype=float) / case.get("vden", 1)      # a permutation: the model runs on the numerators
         d4, at4 = _worst(m_val | m_zero, got, model)
         if d4 > TOL:
             out.append(_F("corr", "rotate-vs-model", f"voxel {at4}: impl {got[tuple(at4)]!r} model {model[tuple(at4)]!r}"))
@@ -1570,13 +1622,15 @@ def judge(case, obs, resps):
                 out.append(_F("spec", "window-shape", f"requested {s_}, got {list(g.shape)}"))
                 continue
             d, at = _worst(np.ones(s_, bool), g, exp)
-            if d > TOL:
+            # a float32 volume: np.mean, hence the fill value, is rounded to single precision (relative 6e-8); window voxels stay exact
+            tolx = 1e-6 * (1 + abs(mean)) if case.get("dtype") == "float32" else TOL
+            if d > tolx:
                 out.append(_F("spec", label, f"{how}: out{at}={g[tuple(at)]!r}, window says {exp[tuple(at)]!r}"))
             if resp["start"] != start:
                 out.append(_F("corr", "window-start", f"model start {resp['start']} vs floor(coord - s/2) = {start}"))
             model = _ratvol(resp["data"])
             dm, atm = _worst(np.ones(s_, bool), g, model)
-            if dm > TOL:
+            if dm > tolx:
                 out.append(_F("corr", "extract-vs-model", f"{key}: voxel {atm}: impl {g[tuple(atm)]!r} model {model[tuple(atm)]!r}"))
             if key == "out":
                 got = g
@@ -1593,7 +1647,8 @@ def judge(case, obs, resps):
                 g = _grid(V)
                 inwin = np.all([(g[i] - start[i] >= 0) & (g[i] - start[i] < s[i]) for i in range(3)], axis=0)
                 expe = np.where(inwin, vol, mean)
-                if list(ge.shape) != list(V) or np.abs(ge - expe).max() > TOL or np.abs(ge - _ratvol(resps[0]["enforce"])).max() > TOL:
+                tole = 1e-6 * (1 + abs(mean)) if case.get("dtype") == "float32" else TOL
+                if list(ge.shape) != list(V) or np.abs(ge - expe).max() > tole or np.abs(ge - _ratvol(resps[0]["enforce"])).max() > tole:
                     out.append(_F("corr", "extract-enforce-shape", f"{how}: enforce_shape=True is not the volume with everything outside the window set to the mean"))
         ri = 2
         if "crop" in obs:
@@ -1619,7 +1674,7 @@ def judge(case, obs, resps):
                 st = [math.ceil(Fraction(ns[i] - V[i], 2)) for i in range(3)]
                 expp[st[0]:st[0] + V[0], st[1]:st[1] + V[1], st[2]:st[2] + V[2]] = vol
                 # a volume read from a file is float32: np.mean then rounds to float32 (relative 6e-8), everything else stays exact
-                tolp = 1e-6 * (1 + abs(mean)) if case.get("via_path") else TOL
+                tolp = 1e-6 * (1 + abs(mean)) if case.get("via_path") or case.get("dtype") == "float32" else TOL
                 if list(gp.shape) != list(ns) or np.abs(gp - expp).max() > tolp or np.abs(gp - _ratvol(resps[ri]["data"])).max() > tolp:
                     out.append(_F("corr", "pad", f"pad({list(V)} -> {ns}, fill={fl}) is not the volume centred at ceil((new-old)/2) in a block of the fill value"))
         return out
@@ -1705,7 +1760,7 @@ def judge(case, obs, resps):
         return out
     if k == "symexact":
         shape, n = case["shape"], case["n"]
-        vol = np.array(case["data"], dtype=float)
+        vol = np.array(case["data"], dtype=float) / case.get("vden", 1)
         got = _num(obs["out"], "symmetrize_volume", out, shape)
         if got is None:
             return out
@@ -1736,7 +1791,7 @@ def judge(case, obs, resps):
         if case["zero_faces"] and (n != 4 or shape[0] == shape[1]):
             if abs(got.sum() - vol.sum()) > 1e-8:
                 out.append(_F("spec", "sym-total-density", f"sum {got.sum()!r} vs {vol.sum()!r}"))
-        model = _ratvol(resps[0]["data"])
+        model = _ratvol(resps[0]["data"]) / case.get("vden", 1)       # symmetrisation is linear: the model runs on the numerators
         d4, at4 = _worst(safe, got, model)
         if d4 > TOL:
             out.append(_F("corr", "symmetrize-vs-model", f"voxel {at4}: impl {got[tuple(at4)]!r} model {model[tuple(at4)]!r}"))
@@ -1814,6 +1869,7 @@ def stats(case, obs, resps):
         st["rot24:matrix"] = "".join("+0-"[0 if x > 0 else (1 if x == 0 else 2)] for x in cube(*case["q"]).flatten())
         st["rot24:rotation-object call"] = "transpose_rotation omitted (default)" if case.get("plain") else "transpose_rotation=True"
         st["rot24:extra call"] = str(case.get("alt"))
+        st["rot24:voxel values"] = "sevenths" if case.get("vden", 1) != 1 else "integers"
         st["rot24:centre floor-halves first/last differ"] = str(case["shape"][0] // 2 != case["shape"][2] // 2)
     elif k == "rotblob":
         st["rotblob:inverse_error(of peak)"] = "%.3f" % obs["inv_err"]
@@ -1854,6 +1910,8 @@ def stats(case, obs, resps):
         st["place:shift_positions first"] = "no" if case.get("shiftpos") is None else f"inplace={case['shiftpos']['inplace']}"
         st["place:columns"] = "int64 where whole" if case.get("intcols") else "float"
         st["place:position grid"] = "1/%d" % case.get("pden", 4)
+        st["place:x, y, z"] = "fractional in some rows" if any(any(p.get("xnum", [0, 0, 0])) for p in case["parts"]) else "whole numbers"
+        st["place:subtomo_id order"] = "as generated (unsorted)" if any("sid" in p for p in case["parts"]) else "1..n"
         try:
             s_ = np.array(case["tdata"]).shape
             st["place:odd template axis with frac(pos)<1/2 (class of defect D33)"] = str(any(_odd_low_axes(p["num"], case.get("pden", 4), s_) for stg in _stages(case) for p in stg["parts"]))
@@ -1867,6 +1925,8 @@ def stats(case, obs, resps):
     elif k in ("symexact", "symblob"):
         st[k + ":n"] = case["n"]
         st[k + ":symmetry given as"] = case.get("form", "int")
+        if k == "symexact":
+            st["symexact:voxel values"] = "sevenths" if case.get("vden", 1) != 1 else "integers"
         if k == "symblob":
             st["symblob:invariance_error(of peak)"] = "%.3f" % obs["inv_err"]
             st["symblob:total_density_error"] = "%.4f" % obs["total_err"]
